@@ -284,7 +284,16 @@ func (r *remoteReplicator) Replica(idx int64, msg []byte) {
 		logger.String("replicator", r.String()),
 		logger.Int64("replicaIdx", resp.ReplicaIndex),
 		logger.Int64("ackIdx", resp.AckIndex))
-	// FIXME: need check resp err
+	if resp.Err != "" {
+		// follower cannot append the message(e.g. its partition is closed), ack index of response is meaningless,
+		// need do handshake again before sending next message.
+		r.state.Store(&state{state: models.ReplicatorFailureState, errMsg: "replica failure on follower, root cause: " + resp.Err})
+		r.statistics.InvalidAckSequence.Incr()
+		r.logger.Error("replica failure on follower",
+			logger.String("replicator", r.String()),
+			logger.Int64("replicaIdx", idx), logger.String("error", resp.Err))
+		return
+	}
 	if resp.AckIndex == resp.ReplicaIndex {
 		// if ack index = replica, need ack wal
 		r.SetAckIndex(resp.AckIndex)
